@@ -23,8 +23,17 @@ structure St where
   model : Model := .none
   nsubs : Nat := 0
   mon : DistSpec.Mon := {}
-  /-- lease mode: the first event after which memory and store are known to drift (finding id) -/
-  taint : String := "none"
+  /-- lease mode, per subscriber: the event after which its record and its lease are known to name
+      different addresses (finding id D38 / D39), until its record is rewritten -/
+  drift : AMap Nat String := []
+  /-- lease mode, per subscriber: the record's epoch stamp is not the lease's last refresh (a write that failed,
+      or a remote record stamped by another node's clock) -/
+  staleRec : List Nat := []
+  /-- lease mode, per subscriber: the epoch moved (tick) or the clock was reset (restart) since the record
+      was last written -/
+  tickSince : List Nat := []
+  /-- the implementation's current epoch as its answers reveal it (2 after construction/restart) -/
+  implEpoch : Nat := 2
   /-- round trip of the bitmap allocator: a SetAllocation moved a subscriber -/
   moved : Bool := false
   /-- … and the two copies have since handed DIFFERENT units to a new subscriber (finding D40): from here
@@ -144,18 +153,22 @@ def auditEv (impl : String) : DistSpec.Ev :=
 
 /-! ### steps -/
 
-def result (st : St) (model : Model) (obs : String) (ev : DistSpec.Ev) (clause : String → String)
-    (taint : String := st.taint) : St × LineResult :=
+abbrev Clause := String → String → Bool → String
+
+def result (st : St) (model : Model) (obs : String) (ev : DistSpec.Ev) (clause : Clause) : St × LineResult :=
   let (mon', vs) := DistSpec.check st.mon ev
-  ({ st with model := model, mon := mon', taint := taint },
-   { modelObs := obs, viols := vs.map fun (n, d) => (n, clause n, d) })
+  ({ st with model := model, mon := mon' },
+   { modelObs := obs, viols := vs.map fun (n, d, coll) => (n, clause n d coll, d) })
 
-def noClause (_ : String) : String := "none"
+/-- session mode: the only recorded finding is the collision of a remote announcement with another holder -/
+def sessionClause : Clause := fun _ _ coll => if coll then "KF-dist-remote-collision" else "none"
 
-/-- allocate/release: the subscriber's record changed only if the implementation answered ok -/
-def changed (k : Nat) (impl : String) : DistSpec.Ev :=
+/-- allocate/renew/release: the record was written only if the implementation answered ok; an `error`
+    leaves the record's epoch stamp behind the lease -/
+def changed (k : Nat) (impl : String) (epoch : Option Nat) : DistSpec.Ev :=
   match splitTokens impl with
-  | "ok" :: _ => .mutated k
+  | "ok" :: _ => .mutated k epoch
+  | "error" :: _ => .mutated k none
   | _ => .attempt
 
 def sessionInRange (c : Bitmap.Cfg) (addr plen : Nat) : Bool :=
@@ -165,16 +178,18 @@ def sessionInRange (c : Bitmap.Cfg) (addr plen : Nat) : Bool :=
 
 def stepSession (st : St) (s : Session.State) (toks : List String) (impl : String) : St × LineResult :=
   let c := s.a.cfg
-  match toks with
-  | ["alloc", k, f] => match parseTagged 's' k, bit f 0 with
+  let allocOp := fun (k f : String) => match parseTagged 's' k, bit f 0 with
     | some k, some f =>
       let (s', o) := Session.alloc s k f
-      result st (.session s') (showObs o) (changed k impl) noClause
+      result st (.session s') (showObs o) (changed k impl (some 0)) sessionClause
     | _, _ => (st, { modelObs := "badop" })
+  match toks with
+  | ["alloc", k, f] => allocOp k f
+  | ["allocmac", k, f] => allocOp k f
   | ["release", k, f] => match parseTagged 's' k, bit f 0 with
     | some k, some f =>
       let (s', o) := Session.release s k f
-      result st (.session s') (showObs o) (changed k impl) noClause
+      result st (.session s') (showObs o) (changed k impl none) sessionClause
     | _, _ => (st, { modelObs := "badop" })
   | ["renew", k, _] => match parseTagged 's' k with
     | some _ => (st, { modelObs := "ok" })
@@ -188,10 +203,19 @@ def stepSession (st : St) (s : Session.State) (toks : List String) (impl : Strin
     | some (x, l) => (st, { modelObs := showObs (Session.owner s x l) })
     | none => (st, { modelObs := "badop" })
   | ["stats"] => (st, { modelObs := showObs (Session.stats s) })
+  | ["util"] =>
+    -- IPAllocator.Stats reports a PERCENTAGE, EpochBitmapAllocator.Stats a fraction (finding KF-util-units)
+    let obs := match Session.stats s with
+      | .stats a t => s!"{if a = 0 ∨ t = 0 then "zero" else "percent"} {a} {t}"
+      | _ => "badop"
+    let ev : DistSpec.Ev := match splitTokens impl with
+      | kind :: _ => .util kind
+      | [] => .nop
+    result st (.session s) obs ev (fun v _ _ => if v == "utilisation" && impl.startsWith "percent " then "KF-util-units" else "none")
   | ["restart", seed] => match seed.toNat? with
     | some seed =>
       let s' := Session.restart s (orderOf s.store seed)
-      result st (.session s') "ok" .restarted noClause
+      result st (.session s') "ok" .restarted sessionClause
     | none => (st, { modelObs := "badop" })
   | ["remoteput", k, a, e] => match parseTagged 's' k, parseAddrLen a, e.toNat? with
     | some k, some (x, l), some e =>
@@ -210,43 +234,96 @@ def stepSession (st : St) (s : Session.State) (toks : List String) (impl : Strin
           let applicable := sessionInRange c xm l && mine sb && (mine b || clean)
           .remotePut k xm l (parsePfx g) applicable (if mine b then parseTagged 's' sb else parseTagged 's' b)
         | _ => .nop
-      result st (.session s') obs ev noClause
+      result st (.session s') obs ev sessionClause
     | _, _, _ => (st, { modelObs := "badop" })
   | ["remotedel", k] => match parseTagged 's' k with
-    | some k => result st (.session (Session.remoteDel s k)) "ok" (.mutated k) noClause
+    | some k => result st (.session (Session.remoteDel s k)) "ok" (.remoteDel k) sessionClause
     | none => (st, { modelObs := "badop" })
   | ["audit"] =>
     let units := (List.range c.totalBig).map fun i => (Bitmap.prefixOf c i, c.plen)
-    result st (.session s) (auditLine st.nsubs s.store (Session.get s) units (Session.owner s)) (auditEv impl) noClause
+    result st (.session s) (auditLine st.nsubs s.store (Session.get s) units (Session.owner s)) (auditEv impl)
+      sessionClause
   | _ => (st, { modelObs := "badop" })
 
 def leaseInRange (c : Epoch.Cfg) (addr plen : Nat) : Bool :=
   plen == 32 && decide (c.base + 1 ≤ addr) && decide (addr + 1 < c.base + c.total)
 
+/-- `s12: …` → 12 -/
+def verdictSub (detail : String) : Option Nat :=
+  match detail.splitOn ":" with
+  | hd :: _ => parseTagged 's' hd
+  | [] => none
+
+/-- The exclusion clauses of the lease-mode findings for an audit verdict about subscriber k, decided on
+    the SHAPE of k's row in the implementation's audit and on k's own history:
+    * record and lease name two different in-pool addresses: D38 right after a restart (the reload re-allocated),
+      otherwise the finding that made k drift (D38/D39), if any;
+    * a record without a lease: KF-lease-store-epoch, when the epoch moved since the record was written and the
+      model of the two expiry clocks shows the same (the lease lapsed, the record is not yet due);
+    * a lease without a record: KF-lease-store-epoch, when the record's stamp was stale (failed write / foreign
+      stamp), the epoch moved, and the model shows the same;
+    anything else is a new violation. -/
+def leaseAuditClause (st : St) (s : Lease.State) (rows : List DistSpec.Row) : Clause := fun v d coll =>
+  let c := s.a.cfg
+  if coll then "KF-dist-remote-collision"
+  else if v != "restart" && v != "store-agree" then "none"
+  else match verdictSub d with
+    | none => "none"
+    | some k =>
+      match rows.find? (fun r => r.1 == k) with
+      | some (_, some (a, l, _), some (a', l')) =>
+        if (a, l) != (a', l') && leaseInRange c a' l' then
+          if v == "restart" then "D38" else (AMap.lookup st.drift k).getD "none"
+        else "none"
+      | some (_, some (_, _, e), none) =>
+        let modelSame := match AMap.lookup s.store k, Lease.get s k with
+          | some r, .none => r.epoch == e
+          | _, _ => false
+        if v == "store-agree" && st.tickSince.contains k && modelSame then "KF-lease-store-epoch" else "none"
+      | some (_, none, some _) =>
+        let modelSame := match AMap.lookup s.store k, Lease.get s k with
+          | none, .okAddr _ _ => true
+          | _, _ => false
+        if v == "store-agree" && st.staleRec.contains k && st.tickSince.contains k && modelSame
+        then "KF-lease-store-epoch" else "none"
+      | _ => "none"
+
 def stepLease (st : St) (s : Lease.State) (toks : List String) (impl : String) : St × LineResult :=
   let c := s.a.cfg
-  -- the exclusion clauses of the lease-mode findings
-  let clause := fun (taint : String) (v : String) =>
-    if v == "restart" then "D38"
-    else if v == "remote" then "D39"
-    else if v == "store-agree" then taint
-    else "none"
-  let firstTaint := fun (t : String) => if st.taint == "none" then t else st.taint
-  match toks with
-  | ["alloc", k, f] => match parseTagged 's' k, bit f 0 with
+  let plain : Clause := fun _ _ coll => if coll then "KF-dist-remote-collision" else "none"
+  let implOk := match splitTokens impl with
+    | "ok" :: _ => true
+    | _ => false
+  let implErr := match splitTokens impl with
+    | "error" :: _ => true
+    | _ => false
+  -- bookkeeping of k's record after an allocate/renew answer
+  let wrote := fun (st : St) (k : Nat) =>
+    if implOk then { st with drift := AMap.erase st.drift k, staleRec := st.staleRec.filter (· ≠ k),
+                             tickSince := st.tickSince.filter (· ≠ k) }
+    else if implErr then { st with staleRec := k :: st.staleRec }
+    else st
+  let allocOp := fun (k f : String) => match parseTagged 's' k, bit f 0 with
     | some k, some f =>
       let (s', o) := Lease.alloc s k f
-      result st (.lease s') (showObs o) (changed k impl) (clause st.taint)
+      result (wrote st k) (.lease s') (showObs o) (changed k impl (some st.implEpoch)) plain
     | _, _ => (st, { modelObs := "badop" })
+  match toks with
+  | ["alloc", k, f] => allocOp k f
+  | ["allocmac", k, f] => allocOp k f
   | ["release", k, f] => match parseTagged 's' k, bit f 0 with
     | some k, some f =>
       let (s', o) := Lease.release s k f
-      result st (.lease s') (showObs o) (changed k impl) (clause st.taint)
+      let st1 := if implOk then { st with drift := AMap.erase st.drift k, staleRec := st.staleRec.filter (· ≠ k) } else st
+      result st1 (.lease s') (showObs o) (changed k impl none) plain
     | _, _ => (st, { modelObs := "badop" })
   | ["renew", k, f] => match parseTagged 's' k, bit f 0, bit f 1 with
     | some k, some g, some p =>
       let (s', o) := Lease.renew s k g p
-      result st (.lease s') (showObs o) .nop (clause st.taint)
+      -- a successful Renew re-stamps the record (the address is not rewritten: drift stays)
+      let st1 := if implOk then { st with staleRec := st.staleRec.filter (· ≠ k), tickSince := st.tickSince.filter (· ≠ k) }
+                 else if implErr then { st with staleRec := k :: st.staleRec } else st
+      result st1 (.lease s') (showObs o) (changed k impl (some st.implEpoch)) plain
     | _, _, _ => (st, { modelObs := "badop" })
   | ["get", k] => match parseTagged 's' k with
     | some k => (st, { modelObs := match Lease.get s k with
@@ -257,15 +334,44 @@ def stepLease (st : St) (s : Lease.State) (toks : List String) (impl : String) :
     | some (x, _) => (st, { modelObs := showObs (Lease.owner s x) })
     | none => (st, { modelObs := "badop" })
   | ["stats"] => (st, { modelObs := showObs (Lease.stats s) })
+  | ["util"] =>
+    let ev : DistSpec.Ev := match splitTokens impl with
+      | kind :: _ => .util kind
+      | [] => .nop
+    result st (.lease s) s!"{Epoch.utilKind s.a} {s.a.subs.length} {s.a.cfg.usable}" ev plain
   | ["restart", seed] => match seed.toNat? with
     | some seed =>
       let s' := Lease.restart s (orderOf s.store seed)
-      result st (.lease s') "ok" .restarted (clause st.taint) (firstTaint "D38")
+      -- D38 drift, per subscriber: the reload (as modelled) gave k another address than its record names
+      let all := (List.range st.nsubs).map (· + 1)
+      let drift := all.foldl (fun (d : AMap Nat String) k =>
+        match AMap.lookup s'.store k, Lease.get s' k with
+        | some r, .okAddr a _ => if r.addr != a then AMap.insert d k "D38" else AMap.erase d k
+        | _, _ => AMap.erase d k) st.drift
+      result { st with drift := drift, tickSince := all, implEpoch := 2 } (.lease s') "ok" .restarted plain
     | none => (st, { modelObs := "badop" })
   | ["tick", seed, f] => match seed.toNat?, bit f 0 with
     | some seed, some f =>
       let (s', o) := Lease.tick s (orderOf s.store seed) f
-      result st (.lease s') (showObs o) .nop (clause st.taint) (firstTaint "KF-lease-store-epoch")
+      let e := (impl.toNat?).getD (st.implEpoch + 1)
+      result { st with tickSince := (List.range st.nsubs).map (· + 1), implEpoch := e } (.lease s') (showObs o) .attempt plain
+    | _, _ => (st, { modelObs := "badop" })
+  | ["tickrace", seed, k] => match seed.toNat?, parseTagged 's' k with
+    | some seed, some k =>
+      -- epochLoop holds da.mu for the whole iteration, so the racing Allocate runs after the tick
+      let (s1, o1) := Lease.tick s (orderOf s.store seed) false
+      let (s2, o2) := Lease.alloc s1 k false
+      let e := match splitTokens impl with
+        | e :: _ => (e.toNat?).getD (st.implEpoch + 1)
+        | [] => st.implEpoch + 1
+      let all := (List.range st.nsubs).map (· + 1)
+      let allocOk := match splitTokens impl with
+        | [_, "ok", _] => true
+        | _ => false
+      let st1 := { st with tickSince := all, implEpoch := e }
+      let st2 := if allocOk then { st1 with drift := AMap.erase st1.drift k, staleRec := st1.staleRec.filter (· ≠ k),
+                                            tickSince := st1.tickSince.filter (· ≠ k) } else st1
+      result st2 (.lease s2) s!"{showObs o1} {showObs o2}" (if allocOk then .mutated k (some e) else .attempt) plain
     | _, _ => (st, { modelObs := "badop" })
   | ["remoteput", k, a, e] => match parseTagged 's' k, parseAddrLen a, e.toNat? with
     | some k, some (x, l), some e =>
@@ -275,7 +381,8 @@ def stepLease (st : St) (s : Lease.State) (toks : List String) (impl : String) :
       let obs := s!"ok {showGet (Lease.get s' k)} {showObs before} {storeOwner st.nsubs s.store xm l} {s'.a.epoch}"
       let clean := st.mon.conflicted.isEmpty && st.mon.badPfx.isEmpty
       let mine := fun (o : String) => o == "none" || o == s!"s{k}"
-      let ev : DistSpec.Ev := match splitTokens impl with
+      let toks' := splitTokens impl
+      let ev : DistSpec.Ev := match toks' with
         | ["ok", g, b, sb, cur] =>
           let stale := match cur.toNat? with
             | some cur => Lease.stale cur e
@@ -283,17 +390,37 @@ def stepLease (st : St) (s : Lease.State) (toks : List String) (impl : String) :
           let applicable := leaseInRange c xm l && mine sb && (mine b || clean) && !stale
           .remotePut k xm l (parsePfx g) applicable (if mine b then parseTagged 's' sb else parseTagged 's' b)
         | _ => .nop
-      -- a remote put whose announced address is not what the model ends up with taints the history (D39)
-      let drift := showGet (Lease.get s' k) != showPfx xm l
-      result st (.lease s') obs ev (clause st.taint) (if drift then firstTaint "D39" else st.taint)
+      -- D39 applies to a `remote` verdict only when Get answers some OTHER in-pool address
+      let clause : Clause := fun v _ coll =>
+        if coll then "KF-dist-remote-collision"
+        else if v == "remote" then
+          match toks' with
+          | ["ok", g, _, _, _] => match parsePfx g with
+            | some (a', l') => if (a', l') != (xm, l) && leaseInRange c a' l' then "D39" else "none"
+            | none => "none"
+          | _ => "none"
+        else "none"
+      -- per-subscriber drift (as modelled): the lease names another address than the announced record
+      let drifted := match Lease.get s' k with
+        | .okAddr a' _ => a' != xm
+        | _ => false
+      let st1 := { st with drift := if drifted then AMap.insert st.drift k "D39" else AMap.erase st.drift k,
+                           staleRec := if e != s'.a.epoch then k :: st.staleRec else st.staleRec.filter (· ≠ k),
+                           tickSince := st.tickSince.filter (· ≠ k) }
+      result st1 (.lease s') obs ev clause
     | _, _, _ => (st, { modelObs := "badop" })
   | ["remotedel", k] => match parseTagged 's' k with
-    | some k => result st (.lease (Lease.remoteDel s k)) "ok" (.mutated k) (clause st.taint)
+    | some k =>
+      result { st with drift := AMap.erase st.drift k, staleRec := st.staleRec.filter (· ≠ k) }
+        (.lease (Lease.remoteDel s k)) "ok" (.remoteDel k) plain
     | none => (st, { modelObs := "badop" })
   | ["audit"] =>
     let units := (List.range c.total).map fun i => (c.base + i, 32)
+    let rows := match parseAudit impl with
+      | some (rows, _) => rows
+      | none => []
     result st (.lease s) (auditLine st.nsubs s.store (Lease.get s) units (fun a _ => Lease.owner s a)) (auditEv impl)
-      (clause st.taint)
+      (leaseAuditClause st s rows)
   | _ => (st, { modelObs := "badop" })
 
 /-- the implementation's `x | y` answer after a fork -/
@@ -330,7 +457,7 @@ def stepRtBitmap (st : St) (a : Bitmap.State) (b : Option Bitmap.State) (toks : 
         let clause := fun (v : String) => if v == "roundtrip" && st.diverged then "D40" else "none"
         let (mon', vs) := DistSpec.check st.mon (forkEv impl)
         ({ st with mon := mon' },
-         { modelObs := s!"{probeBitmap a n} | {probeBitmap b n}", viols := vs.map fun (v, d) => (v, clause v, d) })
+         { modelObs := s!"{probeBitmap a n} | {probeBitmap b n}", viols := vs.map fun (v, d, _) => (v, clause v, d) })
     | none => (st, { modelObs := "badop" })
   | _ =>
     match BitmapDrv.parseOp toks with
@@ -358,7 +485,7 @@ def stepRtBitmap (st : St) (a : Bitmap.State) (b : Option Bitmap.State) (toks : 
         let (mon', vs) := DistSpec.check st.mon (forkEv impl)
         ({ st with model := .rtBitmap a' (some b'), mon := mon', moved := moved,
                    diverged := st.diverged || (st.moved && isAlloc && divergentAlloc impl) },
-         { modelObs := s!"{shown a oa} | {shown b ob}", viols := vs.map fun (n, d) => (n, clause n, d) })
+         { modelObs := s!"{shown a oa} | {shown b ob}", viols := vs.map fun (n, d, _) => (n, clause n, d) })
     | none => (st, { modelObs := "badop" })
 
 def probeEpoch (m : Epoch.State) (n : Nat) : String :=
@@ -380,7 +507,7 @@ def stepRtEpoch (st : St) (a : Epoch.State) (b : Option Epoch.State) (toks : Lis
       | some b =>
         let (mon', vs) := DistSpec.check st.mon (forkEv impl)
         ({ st with mon := mon' },
-         { modelObs := s!"{probeEpoch a n} | {probeEpoch b n}", viols := vs.map fun (v, d) => (v, "none", d) })
+         { modelObs := s!"{probeEpoch a n} | {probeEpoch b n}", viols := vs.map fun (v, d, _) => (v, "none", d) })
     | none => (st, { modelObs := "badop" })
   | _ =>
     match EpochDrv.parseOp toks with
@@ -393,7 +520,7 @@ def stepRtEpoch (st : St) (a : Epoch.State) (b : Option Epoch.State) (toks : Lis
         let (mon', vs) := DistSpec.check st.mon (forkEv impl)
         ({ st with model := .rtEpoch a' (some b'), mon := mon' },
          { modelObs := s!"{EpochDrv.showObs oa} | {EpochDrv.showObs ob}",
-           viols := vs.map fun (n, d) => (n, "none", d) })
+           viols := vs.map fun (n, d, _) => (n, "none", d) })
     | none => (st, { modelObs := "badop" })
 
 def step (st : St) (toks : List String) (impl : String) : St × LineResult :=
@@ -425,6 +552,12 @@ def step (st : St) (toks : List String) (impl : String) : St × LineResult :=
       if c.valid then ({ model := .rtEpoch (Epoch.init c) none }, { modelObs := "ok" })
       else ({}, { modelObs := "invalid" })
     | _, _, _, _ => (st, { modelObs := "badop" })
+  | ["stress", _] =>
+    -- concurrent callers on a fresh allocator + store, audited by the harness: the clause it names is the verdict
+    let vs := match splitTokens impl with
+      | "viol" :: mon :: rest => [(mon, "none", " ".intercalate rest)]
+      | _ => []
+    (st, { modelObs := "ok", viols := vs })
   | _ =>
     match st.model with
     | .none => (st, { modelObs := "badop" })
